@@ -10,6 +10,7 @@ K4  the returned value is that reference
 K5  layout of DynSizedStructure<H> (C14.B7) - size_of_val(self) = round8(size_of H + payload_len)
 """
 from .. import an
+from .. import select as SEL
 from .. import guard as G
 from .. import mir as M
 from ..guard import N, arg
@@ -115,15 +116,12 @@ def run(ctx):
     # who creates typed tag references at all: fat-pointer / reference-from-raw sites in the parse path of get_tag
     gt = [f for k, f in F.fns.items() if f.get("name") == "get_tag" and f.get("impl_self_name") in ("BootInformation", "Multiboot2Header")]
     for f in gt:
-        # closure #1 (map) returns cast::<T>(tag)
-        cl = [c for k, c in F.fns.items() if c.get("root") == f["path"] and c.get("closure")]
-        ok = False
-        for c in cl:
-            rt, _ = an.of(F, c).ret()
-            if rt is not None and N(rt)[0] == "call" and G.cn(N(rt)[1]) == "multiboot2_common::DynSizedStructure::cast" and N(rt)[2] == (arg(2),):
-                ok = True
+        # the typed reference is M(x) = x.cast::<T>() of the selected tag x, in every form get_tag may take (SELECT)
+        sel, why_sel = SEL.analyse(F, f)
+        ok = sel is not None and SEL.is_cast_of_elem(sel["map"], poly=True)
+        why_sel = ("form %s, map term %s" % (sel["form"], G.show(sel["map"])[:100])) if sel is not None else why_sel
         ctx.check(ok, "K2", "%s::get_tag" % f.get("impl_self_name"), "get_tag::<T> produces its typed reference only through cast::<T> of the found tag",
-                  f.get("span", ""), how="map closure returns cast(tag)", why="no closure returning cast(tag)")
+                  f.get("span", ""), how=why_sel, why=str(why_sel)[:300])
     ctx.floor("K2", "get_tag entry points", len(gt), 2)
     for h in c14.header_types(F):
         sty = "multiboot2_common::DynSizedStructure<%s>" % h["self"]
